@@ -54,7 +54,7 @@ def run(rep, pdb, tier):
             rep.missing(key, rule, "function %s::%s not found" % (CF, name))
             return
         ok = got is not None and got[0] != "error" and sign_norm(got) == sign_norm(want)
-        rep.add(key, rule, ok, fn["body"], "extracted: %s" % (show_tree(got) if got is not None and got[0] != "error" else got), where=loc(fn["body"]))
+        rep.add(key, rule, ok, fn["body"], "extracted: %s" % ((show_tree(got) if got is not None and got[0] != "error" else repr(got)),), where=loc(fn["body"]))
 
     r1 = "the body equals the closed form in real functions of (x, y), modulo commutativity of + and * and sign placement"
     check("primitive-forms", "sin", ("cplx", mul(fn_("sin", X), fn_("cosh", Y)), mul(fn_("cos", X), fn_("sinh", Y))), r1)
